@@ -370,5 +370,29 @@ def job_cli(job):
                             r.violation("cli-depth|mq=%d|keepdup=%s|keepqc=%s|keepsupp=%s" % (mq, kd, kq, ks),
                                         "sample %s AD %r, reads passing the configured filters give %r" % (s, got, exp), payload)
                     r.outcome((mq, kd, kq, ks, f[4], f[9], f[10]))
+    # a soft-masked (lower-case) reference is the same reference: identical records apart from the case of REF
+    d2 = os.path.join(str(d), "lower")
+    os.makedirs(d2, exist_ok=True)
+    fa_lower = synth.write_ref(d2, {k: (v[:8] + v[8:40].lower() + v[40:]) for k, v in REF.items()})
+    outs = []
+    for fasta in (fa, fa_lower):
+        argv = ["mchap", "find-snvs", "--bam", p1, p2, "--reference", fasta, "--targets", bed, "--mapping-quality", "0", "--ind-maf", "0.01", "--ind-mad", "1"]
+        buf = io.StringIO()
+        r.evaluations += 1
+        try:
+            with contextlib.redirect_stdout(buf):
+                find_snvs.main(argv)
+        except Exception as e:  # noqa
+            r.violation("cli-exception|%s" % type(e).__name__, "%s: %s for a %s reference" % (type(e).__name__, e, "lower-case" if fasta == fa_lower else "upper-case"), payload)
+            outs = []
+            break
+        env.quiet()
+        outs.append([l.split("\t") for l in buf.getvalue().splitlines() if l and not l.startswith("#")])
+    if len(outs) == 2:
+        up, lo = outs
+        if len(up) != len(lo) or any(a[:3] + [a[3].upper()] + a[4:] != b[:3] + [b[3].upper()] + b[4:] for a, b in zip(up, lo)):
+            r.violation("cli-softmasked-reference", "records differ between an upper-case and a soft-masked (lower-case) reference: %r vs %r" % (
+                [x[:5] for x in up], [x[:5] for x in lo]), payload)
+        r.outcome(("softmask", len(up)))
     r.sample({"cli": "find-snvs main() with every keep-flag combination x mapping quality {0,20}"})
     return r
